@@ -457,6 +457,9 @@ class Interp:
         if isinstance(selfobj, str) and (any(contains_sym(a) for a in args)):
             from . import strings
             return strings.call_method(self, SStr(z3.StringVal(selfobj)), name, args, kwargs)
+        if name == '__init__' and isinstance(selfobj, BaseException) and type(f).__name__ == 'method-wrapper':
+            # BaseException.__init__ only stores its arguments in .args
+            return self._native(f, args, kwargs)
         if selfobj is not None and not isinstance(selfobj, types.ModuleType):
             if (type(selfobj), name) in _SAFE_NATIVE_METHODS:
                 if type(selfobj) is dict and name in ('get', 'pop', 'setdefault', '__contains__') and args \
@@ -592,6 +595,13 @@ class Interp:
             return BoundMethod(v.__func__, type(obj) if not isinstance(obj, type) else obj, k)
         if isinstance(v, property):
             return self.call_function_object(v.fget, [obj], {}, k)
+        if hasattr(type(v), '__get__') and not isinstance(obj, type):
+            # a native descriptor found in class k (e.g. Exception.__init__ reached through super()):
+            # bind THAT descriptor -- getattr(obj, name) would start again at the most derived class
+            try:
+                return v.__get__(obj, type(obj))
+            except Exception as e:
+                raise PyRaise(e)
         return self._native_getattr(obj, name)
 
     def _native_getattr(self, obj, name):
